@@ -344,9 +344,66 @@ fn error_of_code(w: &World, code: u64, salt: u64) -> Option<DialError> {
     Some(e)
 }
 
-/// Every code this build can construct a value for.
+/// The variant names extracted from src/error.rs (regenerated on every check).
+#[path = "gen_c10_errors.rs"]
+mod gen_errors;
+
+/// Every code this build can construct a value for. The hand-written index tables above are
+/// checked against the source on the way: the Debug name of each value must be the name the
+/// source has at that index path, and every variant of the source that is compiled in must have
+/// a constructor here.
 fn all_error_codes(w: &World) -> Vec<u64> {
-    (0..64 * 8).filter(|c| error_of_code(w, *c, 0).is_some()).collect()
+    let codes: Vec<u64> = (0..64 * 8).filter(|c| error_of_code(w, *c, 0).is_some()).collect();
+    let gated_off = |path: &[u64]| {
+        gen_errors::GATES.iter().any(|(p, g)| {
+            path.starts_with(p) && !(*g == 2 || (*g == 1 && cfg!(feature = "quic") && path.len() == p.len() + 1 && path[p.len()] == 0))
+        })
+    };
+    let mut expected = 0usize;
+    for (i, (n1, l2)) in gen_errors::VARIANTS.iter().enumerate() {
+        let mut leaves: Vec<(Vec<u64>, Vec<&str>)> = Vec::new();
+        if l2.is_empty() {
+            leaves.push((vec![i as u64], vec![*n1]));
+        }
+        for (j, (n2, l3)) in l2.iter().enumerate() {
+            if l3.is_empty() {
+                leaves.push((vec![i as u64, j as u64], vec![*n1, *n2]));
+            }
+            for (k, n3) in l3.iter().enumerate() {
+                leaves.push((vec![i as u64, j as u64, k as u64], vec![*n1, *n2, *n3]));
+            }
+        }
+        for (path, names) in leaves {
+            if gated_off(&path) {
+                continue;
+            }
+            expected += 1;
+            let code = path[0] + 4 * path.get(1).copied().unwrap_or(0) + 64 * path.get(2).copied().unwrap_or(0);
+            let e = error_of_code(w, code, 0).unwrap_or_else(|| {
+                table_error(format!("DialError variant {names:?} of src/error.rs has no constructor in the harness"))
+            });
+            let debug = format!("{e:?}");
+            let got: Vec<&str> = debug
+                .split('(')
+                .map(|t| t.trim_end_matches(|c: char| !c.is_alphanumeric()))
+                .take(names.len())
+                .collect();
+            if got != names {
+                table_error(format!(
+                    "harness index table out of step with src/error.rs: code {code} builds {got:?}, the source has {names:?}"
+                ));
+            }
+        }
+    }
+    if expected != codes.len() {
+        table_error(format!("the harness builds {} error kinds, the source has {expected}", codes.len()));
+    }
+    codes
+}
+
+fn table_error(msg: String) -> ! {
+    eprintln!("c10: {msg}");
+    std::process::exit(3)
 }
 
 // ---------------------------------------------------------------- case reader
@@ -595,12 +652,8 @@ fn run_case(rt: &Runtime, w: &World, c: &[u64]) -> Option<(Vec<u64>, Vec<u64>)> 
                     listener,
                 );
                 enc_list(&evicted(w), &mut case);
-                if listener {
-                    out.extend([1, 0]);
-                } else {
-                    out.extend([1, 1, 0]);
-                    dump(&store_of(w, &node.manager, peer), &mut out);
-                }
+                out.extend(if listener { vec![1, 0] } else { vec![1, 1, 0] });
+                dump(&store_of(w, &node.manager, peer), &mut out);
             }
             3 => {
                 let peer = r.peer()?;
